@@ -76,7 +76,7 @@ def v1_case(draw):
     else:
         seps = draw(st.lists(st.sampled_from(SEPS), min_size=nsep, max_size=nsep))
     blanks = draw(st.lists(st.sampled_from(["", "", " ", "\t", "  ", " \t "]), min_size=9, max_size=9))
-    lead = draw(st.sampled_from(["", "", "\n", "\r\n", "\n\n", "\r\n\r\n\r\n", "  \n", "\n" * 6]))
+    lead = draw(st.sampled_from(["", "", "\n", "\r\n", "\n\n", "\r\n\r\n\r\n", "  \n", "\n" * 6, "\r", "\r\r\r", " \r", "\n\r\r"]))
     gap = draw(st.sampled_from(GAPS))
     body = draw(body_st(cs, ascii_only=(enc == "USASCII" and cs == "NONE" and draw(st.booleans()))))
     trail = draw(st.sampled_from(["", "", "", "\n", "\r\n", " \n\n"]))
@@ -259,7 +259,7 @@ def _enum_worker(job):
 
 def run(ctx):
     pairs = ALL_PAIRS
-    prod = list(itertools.product(SEPS, GAPS, pairs, (True, False), ("", "\n", "\r\n\r\n")))
+    prod = list(itertools.product(SEPS, GAPS, pairs, (True, False), ("", "\n", "\r\n\r\n", "\r\r\r")))
     ctx.pmap(_enum_worker, [prod[i::16] for i in range(16)])
     ctx.note("enumerated_layout_product", len(prod))
     n = ctx.scale(1500, 25000)
